@@ -127,10 +127,10 @@ T_CALLS = {
     'inv_utm_north': lambda: (lambda: _tgv.grid2geo(18, 612345.678, 4321098.765, 'North', _tgc.intl24)[2:]),
     'inv_isg': lambda: (lambda: _tgv.grid2geo(561, 318743.2, 1291327.7, 'south', _tgc.ans, _tgc.isg)[2:]),
 }
-_tg, _te = _thr.make(T_CALLS, ['geodepy/convert.py'], 'convert:psfandgridconv:threads', triple=('fwd_utm', 'fwd_isg', 'inv_isg'))
+_tg, _te = _thr.make(T_CALLS, ['geodepy/convert.py'], 'convert:psfandgridconv:threads', quick=['fwd_isg', 'inv_utm_north', 'inv_isg'], triple=('fwd_utm', 'fwd_isg', 'inv_isg'), parts=4)
 
 
-SUBCHECKS = [Sub('psf_gridconv', gen, ev_row, chunk=16, floor=1000, envs=24), Sub('threads', _tg, _te, chunk=1, floor=3, poison=False)]
+SUBCHECKS = [Sub('psf_gridconv', gen, ev_row, chunk=16, floor=1000, envs=24), Sub('threads', _tg, _te, chunk=1, floor=3, poison=False, fresh=True)]
 
 
 def bounds(tier, seed):
